@@ -14,3 +14,5 @@ import Gaftools.Props.Glue2
 #print axioms Gaftools.Glue.infos_readGraph
 #print axioms Gaftools.Glue.reference_eq
 #print axioms Gaftools.Glue.goodGraph_of_valid
+#print axioms Gaftools.TieA.searchIv_gen_eq_model
+#print axioms Gaftools.TieA.overlapCaseIndex_gen_eq_model
